@@ -272,8 +272,9 @@ GraphDeps(g) == CASE g = 1 -> << <<>>, <<>>, <<>> >>
                   [] g = 8 -> << <<"m2", "m3">>, <<"m3">>, <<>> >>
                   [] g = 9 -> << <<"m2">>, <<"m3">>, <<"m1">> >>      \* cycle of length 3
 GraphBad(g) == g \in {5, 6, 7, 9}
+BmBody == <<Ret(MapL(<<"x", "lim">>, <<I(10), MapL(<<"max">>, <<I(10)>>)>>))>>
 ModsOf(g) == LET d == GraphDeps(g) IN
-             [x \in {"m1", "m2", "m3"} |-> ModBody(x, d[CASE x = "m1" -> 1 [] x = "m2" -> 2 [] x = "m3" -> 3])]
+             [x \in {"m1", "m2", "m3", "bm"} |-> IF x = "bm" THEN BmBody ELSE ModBody(x, d[CASE x = "m1" -> 1 [] x = "m2" -> 2 [] x = "m3" -> 3])]
 ModMain(site) ==
   CASE site = 1 -> <<Def("a", Import("m1")), Def("b", Import("m1")), AsgS(Id("a"), "c", I(5)), Ret(Arr(<<Sel(Id("b"), "c"), Sel(Id("a"), "n")>>))>>
     [] site = 2 -> <<Def("f", Fn0(<<Ret(Import("m1"))>>)), Def("x", C0(Id("f"))), AsgS(Id("x"), "c", I(7)),
@@ -303,7 +304,13 @@ ModMain(site) ==
                       Ret(Arr(<<Sel(Import("m1"), "n"), Sel(Import("m2"), "n")>>))>>
     [] site = 8 -> <<Global(<<"cbcall", "cbcall2">>), Def("f", Fn0(<<Ret(Import("m2"))>>)), Def("x", Call(Id("cbcall2"), <<Id("f")>>)), AsgS(Id("x"), "c", I(8)),
                      Def("g", Fn0(<<Ret(Sel(Import("m2"), "c"))>>)), Ret(Arr(<<Call(Id("cbcall"), <<Id("g")>>), Sel(Import("m2"), "c"), Sel(Import("m1"), "n")>>))>>
-ModIdx == [f : {"mod"}, g : 1..9, site : 1..11]
+    \* the builtin module: nested and top-level values changed in place, through a variable and through import expressions
+    [] site = 12 -> <<Def("m", Import("bm")), Def("old", Sel(Sel(Id("m"), "lim"), "max")), AsgS(Sel(Id("m"), "lim"), "max", Bin("+", Id("old"), I(1))),
+                      Ret(Arr(<<Id("old"), Sel(Sel(Import("bm"), "lim"), "max"), Sel(Id("m"), "x"), Sel(Import("m1"), "n")>>))>>
+    [] site = 13 -> <<Def("m", Import("bm")), AsgS(Id("m"), "x", Bin("+", Sel(Id("m"), "x"), I(5))), Ret(Arr(<<Sel(Import("bm"), "x"), Sel(Sel(Id("m"), "lim"), "max")>>))>>
+    [] site = 14 -> <<Def("f", Fn0(<<Def("m", Import("bm")), AsgS(Sel(Id("m"), "lim"), "max", Bin("+", Sel(Sel(Id("m"), "lim"), "max"), I(1))), Ret(Sel(Sel(Id("m"), "lim"), "max"))>>)),
+                      Ret(Arr(<<C0(Id("f")), C0(Id("f")), Sel(Sel(Import("bm"), "lim"), "max")>>))>>
+ModIdx == [f : {"mod"}, g : 1..9, site : 1..14]
 HostGlobals == [x \in {"cbcall", "cbcall2"} |-> VBi(x)]
 ModProg(c) == [P0(ModMain(c.site)) EXCEPT !.mods = ModsOf(c.g), !.globals = IF c.site \in {7, 8} THEN HostGlobals ELSE <<>>]
 \* static verdict: does the compiler have to refuse (cycle / unknown module reachable from an import expression of the main script)
@@ -313,6 +320,7 @@ Reach(g, todo, seen) == IF todo = {} THEN seen
                                  d == IF x \in {"m1", "m2", "m3"} THEN SeqSet(GraphDeps(g)[CASE x = "m1" -> 1 [] x = "m2" -> 2 [] x = "m3" -> 3]) ELSE {}
                              IN Reach(g, (todo \cup d) \ (seen \cup {x}), seen \cup {x})
 MainImports(site) == CASE site \in {1, 2, 7, 9} -> {"m1"} [] site \in {8, 10, 11} -> {"m1", "m2"} [] site = 3 -> {"m1", "m2"} [] site = 4 -> {"m2"} [] site = 5 -> {"m1", "m2", "m3"} [] site = 6 -> {"m1", "m2"}
+                       [] site = 12 -> {"m1"} [] site \in {13, 14} -> {}
 ModRefused(c) == LET r == Reach(c.g, MainImports(c.site), {}) IN
                  \/ "nope" \in r
                  \/ (c.g = 5 /\ {"m1", "m2"} \cap r # {}) \/ (c.g = 6 /\ "m1" \in r) \/ (c.g = 9 /\ {"m1", "m2", "m3"} \cap r # {})
